@@ -8,10 +8,34 @@ import (
 	"sort"
 	"strings"
 
+	"golang.org/x/tools/go/callgraph"
+	"golang.org/x/tools/go/callgraph/cha"
+	"golang.org/x/tools/go/callgraph/vta"
 	"golang.org/x/tools/go/packages"
 	"golang.org/x/tools/go/ssa"
 	"golang.org/x/tools/go/ssa/ssautil"
 )
+
+// buildVTA computes the VTA call graph of the whole program (thorough tier; needs LoadAllSyntax) and indexes the
+// callees of every call site in the module.
+func (c *Ctx) buildVTA() {
+	all := ssautil.AllFunctions(c.Prog)
+	g := vta.CallGraph(all, cha.CallGraph(c.Prog))
+	c.vtaCallees = map[ssa.CallInstruction][]*ssa.Function{}
+	edges := 0
+	callgraph.GraphVisitEdges(g, func(e *callgraph.Edge) error {
+		if e.Site == nil || e.Callee == nil || e.Callee.Func == nil {
+			return nil
+		}
+		if e.Caller.Func.Pkg == nil || !strings.HasPrefix(e.Caller.Func.Pkg.Pkg.Path(), c.Mod) {
+			return nil
+		}
+		c.vtaCallees[e.Site] = append(c.vtaCallees[e.Site], e.Callee.Func)
+		edges++
+		return nil
+	})
+	c.vtaStats = fmt.Sprintf("VTA call graph over %d functions of the whole program (dependencies from source): %d call edges out of module code at %d sites", len(all), edges, len(c.vtaCallees))
+}
 
 const modPath = "tkestack.io/galaxy/"
 
@@ -62,6 +86,9 @@ type Ctx struct {
 	idx map[*ssa.Function]map[ssa.Instruction]int
 
 	lockA *lockAnalysis
+
+	vtaCallees map[ssa.CallInstruction][]*ssa.Function // thorough tier only
+	vtaStats   string
 }
 
 var loadPatterns = []string{"./pkg/...", "./cni/...", "./cmd/...", "./tools/..."}
